@@ -138,6 +138,12 @@ pub fn gen_scenario(ctx: &Ctx, r: &mut Rng, cfg: Config) -> Scenario {
         let v = r.pick(&[json!("conf"), json!(7), json!(null), json!(true), json!(["a", 1]), json!({"kid": "x"}), json!({"jwk": {"kty": "oct"}}), json!(1.5)]).clone();
         u["cnf"] = v;
     }
+    if r.below(600) == 0 && !matches!(std::env::var("VERIF_LEG").as_deref(), Ok("miri") | Ok("valgrind")) {
+        // now and then a credential with more than a thousand hideable array elements (hard caps on
+        // the number of '~'-separated parts, small counters): sizes are not bounded by the properties
+        let n = *r.pick(&[1022usize, 1023, 1024, 1025, 1100, 2050]);
+        u["roster#99990;"] = Value::Array((0..n).map(|i| json!(i % 7)).collect());
+    }
     let strat = gen::gen_strategy(r, &u, cfg.strat);
     Scenario {
         cfg,
